@@ -130,7 +130,7 @@ var properties = map[string][]harnessSpec{
 		{Name: "note.VerifC10DegreeCodec", Quick: map[string]int{"C10.maxNumber": 99}, Thorough: map[string]int{"C10.maxNumber": 999}, Marks: end},
 		{Name: "op.VerifC10KeyCodec", Marks: end},
 		{Name: "op.VerifC10ScalarCodecs", Solver: "cvc5-int", Quick: map[string]int{"C10.maxNumber": 99}, Thorough: map[string]int{"C10.maxNumber": 999}, Marks: end},
-		{Name: "input.VerifC10Instance", Solver: "cvc5-int", Quick: map[string]int{"C10.degrees": 2, "C10.symbols": 2, "C10.maxValues": 1, "C10.maxText": 1}, Thorough: map[string]int{"C10.degrees": 5, "C10.symbols": 4, "C10.maxValues": 2, "C10.maxText": 2}, Marks: end},
+		{Name: "input.VerifC10Instance", Solver: "cvc5-int", Quick: map[string]int{"C10.degrees": 2, "C10.symbols": 2, "C10.maxValues": 1, "C10.maxText": 1}, Thorough: map[string]int{"C10.degrees": 3, "C10.symbols": 2, "C10.maxValues": 2, "C10.maxText": 2}, Marks: end},
 		{Name: "cmd.VerifC10WriteConvPipe", Marks: end},
 	},
 	"C12": {
